@@ -71,11 +71,10 @@ impl<T: ?Sized> Mutex<T> {
         if let Some(o) = obs.as_ref() {
             o.after_lock(class, addr);
         }
-        match res {
-            Ok(g) => Ok(MutexGuard { inner: Some(g), class, addr }),
-            Err(p) =>
-                Err(PoisonError::new(MutexGuard { inner: Some(p.into_inner()), class, addr })),
-        }
+        // Poisoning is not surfaced: a controlled scheduler aborts blocked threads by unwinding
+        // them, and destructors that lock again (scopeguard `defer!`) must not panic a second time.
+        let g = res.unwrap_or_else(PoisonError::into_inner);
+        Ok(MutexGuard { inner: Some(g), class, addr })
     }
 }
 
